@@ -38,7 +38,9 @@ class MemTransport(asyncio.Transport):
 
     def _flush(self):
         r = self.peer_reader
-        now = self._loop.time()
+        # asyncio runs a timer as soon as when < now + clock_resolution: use the same horizon, or an entry whose
+        # deadline is one ulp ahead of `now` would be skipped by its own (only) flush callback and never delivered
+        now = self._loop.time() + getattr(self._loop, "_clock_resolution", 1e-9)
         while self._q and self._q[0][0] <= now:
             _, data = self._q.popleft()
             if data is None:
